@@ -244,6 +244,9 @@ def _offending_position(world, f):
 def execute(scn):
     spec = scn["spec"]
     stats, events, viols, sets = {}, [], [], {}
+    from ..world import require_valid
+
+    require_valid(Model(spec), scn["base_call"])
     sigs = []
     raised_any = False
     for fi, f in enumerate(scn["faults"]):
